@@ -386,3 +386,39 @@ def st_case(draw, profile):
         case.pop('with_key', None) if w > 1 else None
     case['sched'] = draw(st_sched())
     return case
+
+
+# ---------------------------------------------------------------------------------------------------------------------
+# stateless DFS over all schedules with a bounded number of preemptions (prefix replay)
+
+
+def dfs_schedules(workload, max_preempt, judge, on_run, trace_lines=True, budget=200000):
+    """Enumerate every schedule of `workload` that deviates from run-to-block at <= max_preempt decisions.
+
+    A schedule is {decision index: candidate index}; children extend a schedule only at later decisions, so every
+    schedule is visited exactly once. Returns the number of runs."""
+    runs = 0
+    stack = [{}]
+    while stack:
+        pts = stack.pop()
+        case = dict(workload, sched={'mode': 'points', 'points': {str(k): v for k, v in pts.items()}})
+        tr = run_case(case, trace_lines=trace_lines)
+        runs += 1
+        try:
+            judge(tr)
+        except Violation as v:
+            v.case = case
+            raise
+        on_run(case, tr)
+        if runs >= budget:
+            raise RuntimeError(f'DFS budget of {budget} runs exceeded for {workload}')
+        if len(pts) < max_preempt:
+            last = max(pts) if pts else -1
+            for d, (ncand, chosen) in enumerate(tr.sched.decisions):
+                if d <= last:
+                    continue
+                for alt in range(1, ncand):
+                    child = dict(pts)
+                    child[d] = alt
+                    stack.append(child)
+    return runs
